@@ -10,6 +10,7 @@
 package main
 
 import (
+	"bytes"
 	"encoding/hex"
 	"encoding/json"
 	"encoding/pem"
@@ -82,6 +83,32 @@ func pairObs(terms map[string][]iss.Term, c iss.CTCase, serial int64) map[string
 	return map[string]any{"c": c, "base": ob, "ct": oc, "noctEqual": pb.FingerprintNoCT.Equal(pc.FingerprintNoCT)}
 }
 
+// relObs builds the certificate of an issuer/subject relation case and observes it; the case is
+// re-derived from the real certificate (raw names re-read by the independent slicer, own-key
+// signature by the standard library) - a mismatch is a machinery problem.
+func relObs(terms map[string][]iss.Term, c iss.RelCase) map[string]any {
+	der, err := iss.BuildRelCert(c)
+	if err != nil {
+		obs.Fatal("building relation case %v: %v", c, err)
+	}
+	o, _, why := iss.MetaObs(der, true, terms)
+	if o == nil {
+		obs.Fatal("relation case %v: certificate not accepted: %s", c, why)
+	}
+	s, err := iss.Slice(der)
+	if err != nil {
+		obs.Fatal("slice: %v", err)
+	}
+	wantS, wantI, _ := iss.RelNames(c.Rel)
+	if !bytes.Equal(s.Parts["subject"], wantS) || !bytes.Equal(s.Parts["issuer"], wantI) {
+		obs.Fatal("relation case %v: the certificate does not carry the names supplied", c)
+	}
+	if o["issuerEqSubject"] != (c.Rel == "identical") || (o["ownSigVerifies"] == "yes") != c.Own {
+		obs.Fatal("relation case %v: built issuerEqSubject=%v ownSig=%v", c, o["issuerEqSubject"], o["ownSigVerifies"])
+	}
+	return map[string]any{"c": c, "o": o, "der": hex.EncodeToString(der)}
+}
+
 func main() {
 	if len(os.Args) < 4 {
 		obs.Fatal("usage")
@@ -111,6 +138,23 @@ func main() {
 		w.Close()
 		obs.Stat("cases", n)
 		obs.Stat("rejected", rejected)
+	case "rels":
+		w := obs.NewWriter(os.Args[4])
+		n := 0
+		err := obs.ReadLines(os.Args[3], func(line []byte) error {
+			var c iss.RelCase
+			if err := json.Unmarshal(line, &c); err != nil {
+				return err
+			}
+			n++
+			w.Write(relObs(terms, c))
+			return nil
+		})
+		if err != nil {
+			obs.Fatal("%v", err)
+		}
+		w.Close()
+		obs.Stat("cases", n)
 	case "corpus":
 		cnt, _ := strconv.Atoi(os.Args[4])
 		w := obs.NewWriter(os.Args[3])
@@ -207,13 +251,16 @@ func main() {
 		obs.Stat("records", w.N)
 	case "one":
 		var c struct {
-			C   *iss.CTCase `json:"c"`
-			DER string      `json:"der"`
-			Can bool        `json:"canonical"`
+			C   *iss.CTCase  `json:"c"`
+			Rel *iss.RelCase `json:"relcase"`
+			DER string       `json:"der"`
+			Can bool         `json:"canonical"`
 		}
 		obs.ReadReplay(os.Args[3], &c)
 		w := obs.NewWriter(os.Args[4])
-		if c.C != nil {
+		if c.Rel != nil {
+			w.Write(relObs(terms, *c.Rel))
+		} else if c.C != nil {
 			w.Write(pairObs(terms, *c.C, 4242))
 		} else {
 			der, err := hex.DecodeString(c.DER)
